@@ -14,13 +14,13 @@ static wide addmod(wide a, wide b, wide n) { wide c = a + b; return c >= n ? c -
 #endif
 
 /* adapt, then extract from the result: returns the adaptor secret */
-void h_adapt_extract(void) {
+void h_adapt(void) {
     secp256k1_context ctx;
     INPUT_ARR(unsigned char, pre, 64); INPUT_ARR(unsigned char, t32, 32); INPUT_ARR(unsigned char, sig, 64);
     INPUT(int, par); INPUT(_Bool, use_sig); INPUT(_Bool, use_pre); INPUT(_Bool, use_t); INPUT(_Bool, alias); INPUT(size_t, k);
-    unsigned char pre0[64], sig0[64], tout[32];
+    unsigned char pre0[64], sig0[64];
     unsigned char *p_sig, *p_pre, *p_t;
-    int ret, ret2;
+    int ret;
     verif_ctx_init(&ctx);
     g_k = k; __CPROVER_assume(g_k < 32);
     memcpy(pre0, pre, 64); memcpy(sig0, sig, 64);
@@ -43,12 +43,8 @@ void h_adapt_extract(void) {
             want = addmod(s, par ? submod(0, t, n) : t, n);
             __CPROVER_assert(be256(&p_sig[32]) == want, "C12 adapt: s_out = s + t (parity 0) or s - t (parity 1) mod n");
             __CPROVER_assert(p_sig[g_k] == pre0[g_k], "C12 adapt: nonce half copied from the pre-signature");
-            /* now extract from what adapt produced */
-            ret2 = secp256k1_musig_extract_adaptor(&ctx, tout, p_sig, pre0, par);
-            __CPROVER_assert(ret2 == 1 && g_illegal == 0, "C12 adapt;extract: extraction from an adapted signature succeeds");
-            __CPROVER_assert(tout[g_k] == t32[g_k], "C12 adapt;extract: extract(adapt(s,t,par), s, par) == t for all s,t < n and both parities");
-            if (par == 1 && t != 0) REACH("adapt;extract parity 1");
-            if (par == 0 && s + t >= n) REACH("adapt;extract parity 0 with wrap");
+            if (par == 1 && t != 0) REACH("adapt parity 1");
+            if (par == 0 && s + t >= n) REACH("adapt parity 0 with wrap");
             if (alias) REACH("adapt in place");
         }
         if (s >= n) REACH("adapt rejects s >= n");
@@ -58,12 +54,12 @@ void h_adapt_extract(void) {
 }
 
 /* extract from an arbitrary (sig, pre-sig) pair, then adapt the pre-sig with the result: gives sig back */
-void h_extract_adapt(void) {
+void h_extract(void) {
     secp256k1_context ctx;
     INPUT_ARR(unsigned char, epre, 64); INPUT_ARR(unsigned char, esig, 64); INPUT_ARR(unsigned char, etout, 32);
     INPUT(int, par); INPUT(_Bool, use_sig); INPUT(_Bool, use_pre); INPUT(_Bool, use_t); INPUT(size_t, k);
-    unsigned char tout0[32], sig2[64];
-    int ret, ret2;
+    unsigned char tout0[32];
+    int ret;
     verif_ctx_init(&ctx);
     g_k = k; __CPROVER_assume(g_k < 32);
     memcpy(tout0, etout, 32);
@@ -83,15 +79,37 @@ void h_extract_adapt(void) {
         if (ret == 1) {
             want = par ? submod(s, sg, n) : submod(sg, s, n);
             __CPROVER_assert(be256(etout) == want, "C12 extract: t = sig.s - pre.s (parity 0) or pre.s - sig.s (parity 1) mod n");
-            ret2 = secp256k1_musig_adapt(&ctx, sig2, epre, etout, par);
-            __CPROVER_assert(ret2 == 1 && g_illegal == 0, "C12 extract;adapt: adapting with the extracted secret succeeds");
-            __CPROVER_assert(sig2[32 + g_k] == esig[32 + g_k], "C12 extract;adapt: adapt(s, extract(sig,s,par), par) has the s value of sig, for all inputs < n");
-            __CPROVER_assert(sig2[g_k] == epre[g_k], "C12 extract;adapt: nonce half is the epre-signature's");
-            if (par == 0 && sg < s) REACH("extract;adapt parity 0 with borrow");
-            if (par == 1) REACH("extract;adapt parity 1");
+            if (par == 0 && sg < s) REACH("extract parity 0 with borrow");
+            if (par == 1) REACH("extract parity 1");
         }
         if (sg >= n && s < n) REACH("extract rejects sig.s >= n");
         if (s >= n) REACH("extract rejects pre.s >= n");
 #endif
     }
 }
+
+/* Lemma over the two value-level contracts proved above (adapt: s_out = s +/- t, extract: t = +/-(sig.s - pre.s),
+ * both mod n, outputs canonical 32-byte big-endian encodings of values < n, hence equal values = equal bytes):
+ * the operations are mutually inverse for all scalars < n and both parities. */
+#ifndef VERIF_NATIVE
+static wide spec_adapt(wide s, wide t, int par, wide n) { return addmod(s, par ? submod(0, t, n) : t, n); }
+static wide spec_extract(wide sg, wide s, int par, wide n) { return par ? submod(s, sg, n) : submod(sg, s, n); }
+/* one clause per entry: cbmc's multi-property search is an order of magnitude slower on the conjunction */
+#define LEMMA_PROLOGUE INPUT(wide, s); INPUT(wide, t); INPUT(_Bool, lpar); wide n = N_(); \
+    __CPROVER_assume(s < n && t < n)   /* the success precondition of both functions (out-of-range inputs return 0: units C12.adapt / C12.extract) */
+void h_inverse_lemma_range(void) {
+    LEMMA_PROLOGUE;
+    __CPROVER_assert(spec_adapt(s, t, lpar, n) < n && spec_extract(t, s, lpar, n) < n, "C12 adapt/extract lemma: results are scalars < n, so the second call's range gate passes");
+    if (lpar && t != 0 && s != 0) REACH("inverse lemma range parity 1");
+}
+void h_inverse_lemma_ea(void) {
+    LEMMA_PROLOGUE;
+    __CPROVER_assert(spec_extract(spec_adapt(s, t, lpar, n), s, lpar, n) == t, "C12 adapt/extract lemma: extract(adapt(s,t,par), s, par) == t");
+    if (!lpar && s + t >= n) REACH("inverse lemma extract(adapt) parity 0 wrap");
+}
+void h_inverse_lemma_ae(void) {
+    LEMMA_PROLOGUE;
+    __CPROVER_assert(spec_adapt(s, spec_extract(t, s, lpar, n), lpar, n) == t, "C12 adapt/extract lemma: adapt(s, extract(sig,s,par), par) == sig.s");
+    if (lpar && t > s) REACH("inverse lemma adapt(extract) parity 1 borrow");
+}
+#endif
